@@ -416,6 +416,65 @@ def main (args : List String) : IO UInt32 := do
           else IO.println s!"{id} => bad:{rep.msg} ## tx={mt.txId} slot={mt.metaPage} implcheck={ic}"
       | _ => pure ()
     return 0
+  | ["cow", path] =>
+    -- copy-on-write tie (C02, byte-level theorems): per line `<id> <pre> <mid> <post> <pagesize> <off:len>...` with
+    -- pre = the file when the commit began, mid = pre + the commit's data writes, post = mid + the header write,
+    -- and the data writes as offset:length.  Evaluates the premises of `any_partial_commit_shows_previous_state`
+    -- and `header_write_switches_states` on the real commit.
+    let lines ← IO.FS.lines path
+    for line in lines do
+      let f := line.trimAscii.toString.splitOn " "
+      match f with
+      | id :: pre :: mid :: post :: ps :: ws =>
+        let pagesize := ps.toNat!
+        let bpre ← IO.FS.readBinFile pre
+        let bmid ← IO.FS.readBinFile mid
+        let bpost ← IO.FS.readBinFile post
+        let rpre := checkBytes Gen.layout Gen.hashOrder bpre pagesize false
+        let rmid := checkBytes Gen.layout Gen.hashOrder bmid pagesize false
+        let rpost := checkBytes Gen.layout Gen.hashOrder bpost pagesize false
+        let mpre := openAny Gen.layout Gen.hashOrder Gen.oldHashOrder Sha3.sha3_256 (srcOf bpre) pagesize
+        let mpost := openAny Gen.layout Gen.hashOrder Gen.oldHashOrder Sha3.sha3_256 (srcOf bpost) pagesize
+        match mpre, mpost with
+        | .ok m0, .ok m1 =>
+          if !rpre.ok then IO.println s!"{id} => cow-bad: the file before the commit is not a checked file: {rpre.msg}"
+          else if !rpost.ok then IO.println s!"{id} => cow-bad: the file after the commit is not a checked file: {rpost.msg}"
+          else
+          let owned := rpre.reachPages
+          let writes := ws.filterMap (fun w => match w.splitOn ":" with
+            | [a, b] => some (a.toNat!, b.toNat!)
+            | _ => none)
+          -- premise of the crash theorem: no data write touches a header page or a page the previous state owns
+          let bad := writes.find? (fun w =>
+            let p0 := w.1 / pagesize
+            let p1 := (w.1 + w.2 - 1) / pagesize
+            p0 < 2 || (List.range (p1 + 1 - p0)).any (fun d => owned.contains (p0 + d)))
+          match bad with
+          | some w => IO.println s!"{id} => cow-bad: the data write at offset {w.1} (length {w.2}) touches a header page or a page owned by the state the commit started from (pages {owned.take 12}…)"
+          | none =>
+          -- what the crash theorem then predicts for the file without the header write: exactly the previous state
+          if !(rmid.ok && rmid.dump == rpre.dump && rmid.txId == rpre.txId) then
+            IO.println s!"{id} => cow-bad: the file after the data writes and before the header write does not show the previous state: {rmid.msg}"
+          -- premises of the header-switch theorem: other slot, newer id, and the new state is already stored in mid
+          else if m1.metaPage == m0.metaPage || m1.txId ≤ m0.txId then
+            IO.println s!"{id} => cow-bad: the new header went to slot {m1.metaPage} with id {m1.txId}, the previous one is slot {m0.metaPage} with id {m0.txId}"
+          else
+            let s1 := srcOf bmid
+            let pg : PageStore := fun pid =>
+              if pid < 2 || pid ≥ m1.numPages then none else
+              match decodePage Gen.layout s1 pagesize pid with
+              | .ok p => some p
+              | .error _ => none
+            let stored := match checkFile m1 pg bmid.size pagesize, rpost.view with
+              | .ok sum, some v => dumpView sum.root true == rpost.dump && viewPages sum.root == viewPages v &&
+                  sum.free == rpost.freePages
+              | _, _ => false
+            if !stored then IO.println s!"{id} => cow-bad: the state named by the new header is not readable from the file as it is before the header write"
+            else if !(rpost.runs.all (fun r => 2 ≤ r.1)) then IO.println s!"{id} => cow-bad: the new state owns a header page"
+            else IO.println s!"{id} => cow-ok writes={writes.length} owned={owned.length} newpages={rpost.reachPages.length}"
+        | _, _ => IO.println s!"{id} => cow-bad: no valid header before or after the commit"
+      | _ => pure ()
+    return 0
   | _ =>
-    IO.eprintln "usage: jmodel hist <trace> | images <list>"
+    IO.eprintln "usage: jmodel hist <trace> | images <list> | cow <list>"
     return 2
